@@ -1301,19 +1301,22 @@ func (fe *FE) execSliceStable(st *State, ins ssa.Instruction, callee *ssa.Functi
 	st.assume(eq(nh, "(store "+h+" "+sl.Arr+" "+newRow+")"))
 	st.heap[name] = nh
 	off := sl.Off
-	at := func(i string) string {
+	hi := "(+ " + off + " " + n + ")"
+	// absolute indices a in [off, off+n): new[a] == old[P[a]], P a bijection of that range (inverse IP)
+	st.assume(fmt.Sprintf("(forall ((a Int)) (! (=> (and (<= %s a) (< a %s)) (and (<= %s (select %s a)) (< (select %s a) %s) (= (select %s a) (select %s (select %s a))) (= (select %s (select %s a)) a))) :pattern ((select %s a)) :pattern ((select %s a))))",
+		off, hi, off, pi, pi, hi, newRow, oldRow, pi, ipi, pi, pi, newRow))
+	st.assume(fmt.Sprintf("(forall ((b Int)) (! (=> (and (<= %s b) (< b %s)) (and (<= %s (select %s b)) (< (select %s b) %s) (= (select %s (select %s b)) b))) :pattern ((select %s b))))",
+		off, hi, off, ipi, ipi, hi, pi, ipi, ipi))
+	st.assume(fmt.Sprintf("(forall ((k Int)) (! (=> (or (< k %s) (>= k %s)) (= (select %s k) (select %s k))) :pattern ((select %s k))))", off, hi, newRow, oldRow, newRow))
+	// less is evaluated on relative indices (the closure indexes the slice)
+	rel := func(a string) string {
 		if off == "0" {
-			return i
+			return a
 		}
-		return "(+ " + off + " " + i + ")"
+		return "(- " + a + " " + off + ")"
 	}
-	st.assume(fmt.Sprintf("(forall ((i Int)) (! (=> (and (<= 0 i) (< i %s)) (and (<= 0 (select %s i)) (< (select %s i) %s) (= (select %s %s) (select %s %s)) (= (select %s (select %s i)) i))) :pattern ((select %s i)) :pattern ((select %s %s))))",
-		n, pi, pi, n, newRow, at("i"), oldRow, at("(select "+pi+" i)"), ipi, pi, pi, newRow, at("i")))
-	st.assume(fmt.Sprintf("(forall ((j Int)) (! (=> (and (<= 0 j) (< j %s)) (and (<= 0 (select %s j)) (< (select %s j) %s) (= (select %s (select %s j)) j))) :pattern ((select %s j))))",
-		n, ipi, ipi, n, pi, ipi, ipi))
-	st.assume(fmt.Sprintf("(forall ((k Int)) (! (=> (or (< k %s) (>= k (+ %s %s))) (= (select %s k) (select %s k))) :pattern ((select %s k))))", off, off, n, newRow, oldRow, newRow))
-	st.assume(fmt.Sprintf("(forall ((q_i Int) (q_j Int)) (=> (and (<= 0 q_i) (< q_i q_j) (< q_j %s)) (not %s)))", n, lessAt("q_j", "q_i")))
-	st.assume(fmt.Sprintf("(forall ((q_i Int) (q_j Int)) (=> (and (<= 0 q_i) (< q_i q_j) (< q_j %s) (not %s)) (< (select %s q_i) (select %s q_j))))", n, lessAt("q_i", "q_j"), pi, pi))
+	st.assume(fmt.Sprintf("(forall ((q_i Int) (q_j Int)) (=> (and (<= %s q_i) (< q_i q_j) (< q_j %s)) (not %s)))", off, hi, lessAt(rel("q_j"), rel("q_i"))))
+	st.assume(fmt.Sprintf("(forall ((q_i Int) (q_j Int)) (=> (and (<= %s q_i) (< q_i q_j) (< q_j %s) (not %s)) (< (select %s q_i) (select %s q_j))))", off, hi, lessAt(rel("q_i"), rel("q_j")), pi, pi))
 	st.ghosts["perm"] = scalar(pi, "(Array Int Int)", nil)
 	st.ghosts["iperm"] = scalar(ipi, "(Array Int Int)", nil)
 	hooks := fe.matchHooks(ci, "call")
